@@ -183,6 +183,59 @@ def msfSpec (es : List Edge) (n : Nat) : String :=
   if checkSpanning es n t (wccClasses t n) && checkCycleProperty conn es t then showForest t
   else "checker-rejects"
 
+/-! ### structure.rs: cut vertices, bridges, core numbers — by definition, on the simple
+undirected graph (adjacency sets: parallel edges collapse, direction is ignored) -/
+
+/-- undirected simple edges `{u, v}`, `u ≠ v`, each once as `(min, max)` -/
+def simpleEdges (es : List Edge) : List (Nat × Nat) :=
+  es.foldl (fun acc e =>
+    let a := min e.1 e.2.1
+    let b := max e.1 e.2.1
+    if a == b || acc.contains (a, b) then acc else acc ++ [(a, b)]) []
+
+/-- the same, self-loops kept (`(v, v)`): for core numbers a self-loop makes a node its own
+neighbour, as the adjacency sets of `kcore_decomposition` do -/
+def simpleEdgesWithLoops (es : List Edge) : List (Nat × Nat) :=
+  es.foldl (fun acc e =>
+    let a := min e.1 e.2.1
+    let b := max e.1 e.2.1
+    if acc.contains (a, b) then acc else acc ++ [(a, b)]) []
+
+def toEdges (ps : List (Nat × Nat)) : List Edge := ps.map (fun p => (p.1, p.2, (0 : Int)))
+
+/-- number of connected components among the nodes `vs` using the simple edges `ps` -/
+def compCount (vs : List Nat) (ps : List (Nat × Nat)) : Nat :=
+  (vs.foldl (fun (acc : List (List Nat)) v =>
+    if acc.any (fun c => c.contains v) then acc else acc ++ [reachOrder (sym (toEdges ps)) v]) []).length
+
+/-- `v` is a cut vertex iff deleting it (with its edges) leaves more components -/
+def cutVertices (es : List Edge) (n : Nat) : List Nat :=
+  let ps := simpleEdges es
+  let vs := List.range n
+  let base := compCount vs ps
+  vs.filter (fun v => compCount (vs.filter (· != v)) (ps.filter (fun p => p.1 != v && p.2 != v)) > base)
+
+/-- an edge is a bridge iff deleting it leaves more components -/
+def bridgeEdges (es : List Edge) (n : Nat) : List (Nat × Nat) :=
+  let ps := simpleEdges es
+  let vs := List.range n
+  let base := compCount vs ps
+  ps.filter (fun p => compCount vs (ps.filter (· != p)) > base)
+
+/-- the `k`-core: delete nodes of degree below `k` until none is left (fuel `n` rounds) -/
+def kCore (ps : List (Nat × Nat)) (n k : Nat) : List Nat :=
+  iter (fun (alive : List Nat) =>
+    alive.filter (fun v =>
+      ((ps.filter (fun p => (p.1 == v && alive.contains p.2) || (p.2 == v && alive.contains p.1))).length) ≥ k))
+    n (List.range n)
+
+def coreNumber (ps : List (Nat × Nat)) (n v : Nat) : Nat :=
+  ((List.range (n + 1)).filter (fun k => (kCore ps n k).contains v)).foldl max 0
+
+def insertPair (x : Nat × Nat) : List (Nat × Nat) → List (Nat × Nat)
+  | [] => [x]
+  | y :: ys => if x.1 < y.1 || (x.1 == y.1 && x.2 ≤ y.2) then x :: y :: ys else y :: insertPair x ys
+
 /-! ### handler -/
 
 def mk (m s sig : String) : Proto.Out := { model := m, spec := s, sig := if m == s then "-" else sig }
@@ -262,6 +315,20 @@ def handle (args : List String) : Option Proto.Out :=
         let pred := fun v => es.find? fun e => e.2.1 == v && !order.contains e.1
         let start := ((List.range n).find? fun v => !order.contains v).getD 0
         pure (certified "none" (checkCycle es (cycleVia pred n start)))
+    else if op == "artic" then
+      let v := cutVertices es n
+      let m := if v.isEmpty then "none" else natList v
+      pure { model := m, spec := m }
+    else if op == "bridges" then
+      let b := (bridgeEdges es n).foldr insertPair []
+      let m := if b.isEmpty then "none" else joinWith "," (b.map (fun p => s!"{p.1}-{p.2}"))
+      pure { model := m, spec := m }
+    else if op == "kcore" then
+      let ps := simpleEdgesWithLoops es
+      let cs := (List.range n).map (fun v => (v, coreNumber ps n v))
+      let mx := (cs.map (·.2)).foldl max 0
+      let m := if n == 0 then "none" else s!"{joinWith "," (cs.map (fun c => s!"{c.1}:{c.2}"))}|{mx}"
+      pure { model := m, spec := m }
     else if op == "kruskal" then
       -- every edge takes part (parallel and antiparallel ones included)
       let t := forestRef n (sortEdges es)
